@@ -22,6 +22,7 @@ import (
 const T = int64(time.Second)
 
 type icase struct {
+	OnIdle        string  `json:"on_idle,omitempty"`         // what the event handler does on an idle event: "" | "heartbeat" | "close"
 	Kind          string  `json:"kind"`                      // "read" | "write"
 	Gaps          []int64 `json:"gaps"`                      // virtual gaps before each message (ns)
 	CloseAt       int64   `json:"close_at"`                  // -1: never; else Close is issued after this much virtual time
@@ -43,6 +44,9 @@ func (c icase) name() string {
 	}
 	if c.CloseInActive {
 		s += "/closed-inside-HandleActive"
+	}
+	if c.OnIdle != "" {
+		s += "/on-idle=" + c.OnIdle
 	}
 	return s
 }
@@ -72,6 +76,7 @@ type obs struct {
 	excs       []error
 	endNow     int64
 	lastReadAt int64
+	heartbeats int
 }
 
 func now() stamp { return stamp{vsched.X.Now, vsched.X.Steps(), vsched.X.Now} }
@@ -139,6 +144,15 @@ func (s *sink) HandleEvent(ctx netty.EventContext, ev netty.Event) {
 		s.o.events = append(s.o.events, e)
 		if s.o.ic.Panic {
 			panic(errEventBoom)
+		}
+		switch s.o.ic.OnIdle {
+		case "heartbeat":
+			// the usual keep-alive: answer an idle event with a message (re-enters the write-idle handler)
+			s.o.heartbeats++
+			ctx.Channel().Write([]byte("ping"))
+		case "close":
+			// the usual idle policy: drop the connection (re-enters the idle handler through inactive)
+			ctx.Close(errClose)
 		}
 	}
 }
@@ -317,6 +331,7 @@ func cases(thorough bool) []icase {
 			out = append(out, icase{Kind: kind, Gaps: s, CloseAt: -1, Panic: true})
 			if len(s) <= 1 {
 				out = append(out, icase{Kind: kind, Gaps: s, CloseAt: -1, CloseInActive: true})
+				out = append(out, icase{Kind: kind, Gaps: s, CloseAt: -1, OnIdle: "heartbeat"}, icase{Kind: kind, Gaps: s, CloseAt: 5 * T / 2, OnIdle: "heartbeat"}, icase{Kind: kind, Gaps: s, CloseAt: -1, OnIdle: "close"})
 			}
 			if thorough {
 				out = append(out, icase{Kind: kind, Gaps: s, CloseAt: 3 * T / 2, Panic: true})
@@ -329,7 +344,7 @@ func cases(thorough bool) []icase {
 func main() {
 	explore.Main(explore.Spec{
 		Property: "C20",
-		Rule:     "read-idle and write-idle handlers (idle time T = 1s) on virtual time: a peer goroutine issues 0-2 (thorough 3) messages separated by gaps from {0, T/2, T, 3T/2}; Close at {never, T/2, T, 3T/2, 5T/2} or from inside a downstream HandleActive; event handlers that panic; timer callbacks are controlled goroutines; all interleavings up to 2 (thorough 3) deviations (preemptions + early clock ticks), horizon 5T. Oracle: an idle event delivered by a callback that started at step s and time t needs t - t_m >= T for every message whose passage through the idle handler had completed before s, and t - t_active >= T; on tick-free executions silence of k*T produces >= k events; after inactive has passed the handler at most the one callback already in flight delivers an event, no callback starts afterwards, and no timer stays armed; one exception per panicking event and no goroutine dies. distinct = distinct timelines",
+		Rule:     "read-idle and write-idle handlers (idle time T = 1s) on virtual time: a peer goroutine issues 0-2 (thorough 3) messages separated by gaps from {0, T/2, T, 3T/2}; Close at {never, T/2, T, 3T/2, 5T/2} or from inside a downstream HandleActive; event handlers that panic, answer with a heartbeat write, or close the channel; timer callbacks are controlled goroutines; all interleavings up to 2 (thorough 3) deviations (preemptions + early clock ticks), horizon 5T. Oracle: an idle event delivered by a callback that started at step s and time t needs t - t_m >= T for every message whose passage through the idle handler had completed before s, and t - t_active >= T; on tick-free executions silence of k*T produces >= k events; after inactive has passed the handler at most the one callback already in flight delivers an event, no callback starts afterwards, and no timer stays armed; one exception per panicking event and no goroutine dies. distinct = distinct timelines",
 		Assume:   []string{"'passed the handler' is read as 'the handler's processing of the message completed' (messages still in flight when the callback started are disregarded - the weakest reading)", "virtual time; a callback may be delayed arbitrarily by scheduling"},
 		Build: func(tier string) []*explore.Scenario {
 			th := tier == "thorough"
